@@ -3,9 +3,9 @@
    merge_obj s o models _merge_module_stubs(o, s) / _merge_class_stubs(o, s) of merger.py (stubs first);
    Done r = returned normally with o mutated into r, Raised e p = raised e leaving o as p.
    Al = alias whose target is not loaded, AlTo = alias carrying the value of its loaded final target.
-   The model is that of the code after the repairs of findings C19-F1, F2, F3: no theorem about ONE merge carries a gap
-   hypothesis.  The loader's SECOND merge of the same pair (Model/C19_reload.v: remerge, settle, load_package2) is
-   characterised exactly; its idempotence holds modulo the known finding C19-F5 (gap predicate: not quiet_moved). *)
+   The model is that of the code after the repairs of findings C19-F1, F2, F3, F5: no theorem about merging carries a gap
+   hypothesis.  The loader's SECOND merge of the same pair (Model/C19_reload.v: remerge, load_package2) is proved to
+   change nothing. *)
 From Coq Require Import List ZArith String Bool Arith.
 From Verif Require Import Lib.Sexp Model.C19_merge Proofs.C19_merge Model.C19_reload Model.C19_seq Proofs.C19_reload Proofs.C19_chain Proofs.C19_seq Proofs.C19_subs.
 Import ListNotations.
@@ -225,51 +225,38 @@ Print Assumptions C19_repaired_witnesses.
 (* ---------------------------------------------------------------------------------------------------------------------
    The loader merges a package's __init__ stubs TWICE (modules-collection set_member, then merge_stubs in _load_package).
    remerge s o r = the second _merge_module_stubs(o, s) where o was already merged into r: objects, not values - the
-   stub-only members moved into the runtime tree by the first merge are now stub member and runtime member at once.
+   stub-only members moved into the runtime tree by the first merge are stub member and runtime member at once and are
+   skipped (`if obj_member is stub_member: continue`, /repo 79c2f6a, the repair of finding C19-F5).
    wfs = names of members / parameters / imports / buffer keys are unique at every depth (they are dicts);
    has_dicts = every module / class of the stubs carries its pending-overloads dict (as the visitor builds them). *)
 
-(* Exactly what the second merge does, for all trees: every stub-only member is merged into itself ([settle]: its pending
-   overload groups are handed to its own functions and the dict is emptied, recursively), classes / modules present on
-   both sides are entered, and NOTHING else changes - docstrings, imports, annotations, returns, overloads, order. *)
-Theorem C19_second_merge_only_settles :
+(* The second merge changes nothing, for all trees: docstrings, imports, annotations, returns, overloads, order, the
+   pending-overloads dicts, at every depth (each field rule is idempotent, moved members are skipped). *)
+Theorem C19_second_merge_changes_nothing :
   forall s, wfs s -> has_dicts s = true -> root_container s = true ->
-  forall o r, merge_obj s o = Done r -> remerge s o r = Done (resettle s o r).
-Proof. exact second_merge_resettles. Qed.
-Print Assumptions C19_second_merge_only_settles.
+  forall o r, merge_obj s o = Done r -> remerge s o r = Done r.
+Proof. exact second_merge_identity. Qed.
+Print Assumptions C19_second_merge_changes_nothing.
 
-(* Idempotence of the loader's double merge (stubs on the package __init__, in the package itself): the loaded module is
-   the single merge up to the bookkeeping dicts - unless a stub-only class / module holds a pending overload group for
-   one of its own functions (known finding C19-F5; quiet_moved is the decidable complement of its gap predicate). *)
-Theorem C19_double_merge_idempotent_modulo_known :
+(* Idempotence of the loader's double merge, unconditionally (stubs on the package __init__, in the package itself): the
+   loaded module IS the single merge - the very result of the sibling-.pyi placement. *)
+Theorem C19_double_merge_idempotent :
   forall s, wfs s -> has_dicts s = true -> root_container s = true ->
-  forall top r, merge_obj s top = Done r ->
-  load_package2 top s [] = Ok (resettle s top r) /\
-  (quiet_moved s top = true -> erase_buf (resettle s top r) = erase_buf r).
+  forall top r, merge_obj s top = Done r -> load_package2 top s [] = Ok r.
 Proof. exact load_package_in_package_stubs. Qed.
-Print Assumptions C19_double_merge_idempotent_modulo_known.
+Print Assumptions C19_double_merge_idempotent.
 
-(* ... and the gap is real (replayed on the implementation on every run: corpus pair F5_WITNESS): with
-   class S: def g(self, x: float) -> float; @overload def g(self, x: int) -> int   only in the stubs, the double merge
-   gives S.g an overload list that the single merge (sibling m.pyi) does not. *)
-Theorem C19_double_merge_refuted :
-  exists s o r r2, wfs s /\ has_dicts s = true /\ root_container s = true /\ quiet_moved s o = false /\
-    merge_obj s o = Done r /\ load_package2 o s [] = Ok r2 /\ erase_buf r2 <> erase_buf r /\
-    at_path ["S"; "g"] r = Some ex5_g /\
-    at_path ["S"; "g"] r2 = Some (Obj (with_ov (with_ret (with_params (nd KFun) [("self", None); ("x", Some "float")]) (Some "float"))
-                                               (OvList ["g(self, x: int) -> int"])) []).
-Proof. exact double_merge_refuted. Qed.
-Print Assumptions C19_double_merge_refuted.
-
-(* non-vacuity: an ordinary stub-only class (overload-only method m, method k) satisfies every hypothesis; the second merge
-   drains its pending group (so "up to the bookkeeping dicts" cannot be dropped) and changes nothing else *)
-Theorem C19_double_merge_hypotheses_satisfiable :
-  exists r r2, wfs ex5_s_ok /\ has_dicts ex5_s_ok = true /\ root_container ex5_s_ok = true /\ quiet_moved ex5_s_ok ex5_o = true /\
-    merge_obj ex5_s_ok ex5_o = Done r /\ load_package2 ex5_o ex5_s_ok [] = Ok r2 /\
-    erase_buf r2 = erase_buf r /\ r2 <> r /\
-    at_path ["S"] r2 = Some (set_rt false (ex5_S [] [("k", ex5_g)])).
-Proof. exact double_merge_hypotheses_satisfiable. Qed.
-Print Assumptions C19_double_merge_hypotheses_satisfiable.
+(* non-vacuity, and the former refutation input of C19-F5 (class S: def g(self, x: float) -> float; @overload def g(self,
+   x: int) -> int, only in the stubs) now satisfying the property: S.g keeps no overload list in either placement; an
+   ordinary stub-only class keeps its pending group *)
+Theorem C19_double_merge_examples :
+  wfs ex5_s /\ has_dicts ex5_s = true /\ root_container ex5_s = true /\
+  wfs ex5_s_ok /\ has_dicts ex5_s_ok = true /\ root_container ex5_s_ok = true /\
+  (exists r, merge_obj ex5_s ex5_o = Done r /\ load_package2 ex5_o ex5_s [] = Ok r /\ at_path ["S"; "g"] r = Some ex5_g) /\
+  (exists r, merge_obj ex5_s_ok ex5_o = Done r /\ load_package2 ex5_o ex5_s_ok [] = Ok r /\
+     at_path ["S"] r = Some (set_rt false (ex5_S [("m", ["m(self) -> int"; "m(self, x: int) -> str"])] [("k", ex5_g)]))).
+Proof. exact double_merge_examples. Qed.
+Print Assumptions C19_double_merge_examples.
 
 (* known finding C19-F4 (replayed on the implementation on every run): in-package stubs of a submodule are merged while
    the submodules are loaded, before `from _pkg import *` of the runtime module is expanded - the model of one merge, fed
@@ -360,14 +347,13 @@ Proof. exact adjacent_pair_hypotheses_satisfiable. Qed.
 Print Assumptions C19_adjacent_pair_hypotheses_satisfiable.
 
 (* Stubs in a separate stubs package (pkg-stubs): its submodules are loaded into the stubs module between the two merges.
-   The loaded package = the second merge of the __init__ pair (resettle: see C19_second_merge_only_settles) followed by ONE
-   ordinary merge of the stubs submodules into the runtime package - so every one-merge theorem above applies to the
-   submodules as it stands.  Submodule names are unique and bound by nothing in the stubs __init__. *)
+   The loaded package = the single merge of the __init__ pair followed by ONE ordinary merge of the stubs submodules into
+   the runtime package - so every one-merge theorem above applies to the submodules as it stands.  Submodule names are
+   unique and bound by nothing in the stubs __init__. *)
 Theorem C19_double_merge_stubs_package :
   forall s subs, wfs s -> has_dicts s = true -> root_container s = true ->
   NoDup (names subs) -> (forall n, In n (names subs) -> ~ In n (names (members s))) ->
-  forall top r, merge_obj s top = Done r ->
-  exists rd rms, resettle s top r = Obj rd rms /\
+  forall top rd rms, merge_obj s top = Done (Obj rd rms) ->
     load_package2 top s subs =
     match merge_members merge_obj subs rms with
     | (rms', None) => Ok (Obj rd rms')
@@ -380,6 +366,6 @@ Theorem C19_double_merge_stubs_package_example :
   NoDup (names exp_subs) /\ (forall n, In n (names exp_subs) -> ~ In n (names (members ex5_s_ok))) /\
   exists t, load_package2 exp_top ex5_s_ok exp_subs = Ok t /\
     at_path ["sub"; "h"] t = Some (Obj (with_ret (with_params (nd KFun) [("x", Some "int")]) (Some "int")) []) /\
-    at_path ["S"] t = Some (set_rt false (ex5_S [] [("k", ex5_g)])).
+    at_path ["S"] t = Some (set_rt false (ex5_S [("m", ["m(self) -> int"; "m(self, x: int) -> str"])] [("k", ex5_g)])).
 Proof. exact stubs_package_example. Qed.
 Print Assumptions C19_double_merge_stubs_package_example.
